@@ -45,6 +45,15 @@ Fixpoint flat_res (xs : list val) : option (list val) :=
 Fixpoint all_true (p : val -> res) (xs : list val) : bool :=
   match xs with [] => true | x :: r => match p x with Ok b => is_true b && all_true p r | Raise _ => false end end.
 
+Fixpoint pairs_ok (a : val -> val -> res) (xs : list val) : bool :=
+  match xs with
+  | [] => true
+  | x :: r => match r with
+              | [] => true
+              | y :: _ => match a x y with Ok b => is_true b && pairs_ok a r | Raise _ => false end
+              end
+  end.
+
 Definition plain_op (o : op) (xs : list val) : option (list val) :=
   match o with
   | OMap f => map_res (apply1 f) xs
@@ -56,6 +65,15 @@ Definition plain_op (o : op) (xs : list val) : option (list val) :=
   | OAssert p => if all_true (apply1 p) xs then Some xs else None
   | OScan a seed t reduce None =>
       obind (scan_res a t seed xs) (fun '(ys, fin) => Some (if reduce then [fin] else ys))
+  (* scan_obs.on_completed with a terminator: state = terminator(state or seed), emitted once *)
+  | OScan a seed t reduce (Some term) =>
+      obind (scan_res a t seed xs) (fun '(ys, fin) =>
+        match apply1 term fin with
+        | Ok v => if fits t v then Some (if reduce then [v] else ys ++ [v]) else None
+        | Raise _ => None
+        end)
+  (* _assert_1_obs: every item is compared with its predecessor *)
+  | OAssert1 a => if pairs_ok (apply2 a) xs then Some xs else None
   | _ => None
   end.
 Fixpoint plain_pipe (p : list op) (xs : list val) : option (list val) :=
